@@ -264,7 +264,7 @@ def band_case(ctx, rng, idx):
             rows.append(r)
     # a second observable that must be ignored
     for t in times[:1]:
-        r = {'ID': 1, 'Time': float(t), 'Observable': 'other',
+        r = {'ID': 1, 'Time': float(t), 'Observable': 'Another',
              'Value': 1e6}
         if pk:
             r['Dose'] = np.nan
@@ -489,9 +489,9 @@ def residual_case(ctx, rng, idx):
     # prediction frame is shown)
     target = 'conc'
     if rng.random() < 0.5:
-        other_m = meas.assign(Observable='other',
+        other_m = meas.assign(Observable='Another',
                               Value=rng.uniform(6, 9, len(meas)))
-        other_p = pred.assign(Observable='other',
+        other_p = pred.assign(Observable='Another',
                               Value=rng.uniform(6, 9, len(pred)))
         first = bool(rng.integers(2))
         meas = pd.concat([other_m, meas] if rng.random() < 0.5
@@ -499,7 +499,7 @@ def residual_case(ctx, rng, idx):
         pred = pd.concat([other_p, pred] if first else [pred, other_p],
                          ignore_index=True)
         if first:
-            target = 'other'
+            target = 'Another'
     use_default_obs = rng.random() < 0.4
     one_individual = None
     if rng.random() < 0.4:
